@@ -31,6 +31,19 @@ func supportSource(kind, pkgName string) ([]byte, error) {
 	return []byte(strings.Replace(string(src), "PKGNAME", pkgName, 1)), nil
 }
 
+// harnessSource reads a harness file; files that start with //verif:anypkg are shared
+// between packages and get their package clause rewritten.
+func harnessSource(real, pkgName string) ([]byte, error) {
+	src, err := os.ReadFile(real)
+	if err != nil {
+		return nil, err
+	}
+	if strings.HasPrefix(string(src), "//verif:anypkg") {
+		src = []byte(strings.Replace(string(src), "\npackage gojq\n", "\npackage "+pkgName+"\n", 1))
+	}
+	return src, nil
+}
+
 func pkgNameOf(pkgRel string) string {
 	if pkgRel == "." || pkgRel == "" {
 		return "gojq"
@@ -60,7 +73,7 @@ func loadWithHarness(pkgRel string, files []string) (*loaded, error) {
 			if !filepath.IsAbs(real) {
 				real = filepath.Join(opt.verif, f)
 			}
-			src, err := os.ReadFile(real)
+			src, err := harnessSource(real, name)
 			if err != nil {
 				return nil, err
 			}
